@@ -59,6 +59,7 @@ WVL = 0.6328
 TOL_POS = 1e-9      # x scale (>= 1): on-ray, on-surface         (round-off observed <= 4e-14 x scale)
 TOL_UNIT = 1e-10    # | |S'| - 1 |                               (observed <= 1e-15)
 TOL_LAW = 1e-9      # reflection vector law, Snell, coplanarity  (observed <= 1e-13)
+TOL_INPUT = 1e-13   # | |S_j| - 1 | of the ray entering a pass (else the pass is downstream of an earlier deviation: excluded)
 TOL_ORACLE = 1e-10  # oracle self-consistency (else excluded)
 TOL_RIGID = 1e-12   # x scale, frame transforms vs own algebra   (observed <= 2e-16 x scale)
 LONG_PATH = 32.0    # path from the local vertex plane to the hit beyond which ulp(s) approaches the default 100 eps
@@ -337,7 +338,9 @@ def check_pass(ctx, spec, Pin, Sin, Pout, Sout, n1, desc, stage='raytrace', j=0)
     # ---- 0. inputs of this pass must be a valid ray (otherwise we are downstream of an earlier violation / NaN)
     valid = np.isfinite(Pin).all(1) & np.isfinite(Sin).all(1)
     with np.errstate(invalid='ignore'):
-        valid &= np.abs(rp.norm(Sin) - 1.0) <= TOL_UNIT
+        # the input must be unit at round-off level, 3 decades below the output tolerance: an upstream error just
+        # under TOL_UNIT must not be charged to this surface
+        valid &= np.abs(rp.norm(Sin) - 1.0) <= TOL_INPUT
     if (~valid).any():
         ctx.skip('pass input not a finite unit ray (downstream of an earlier NaN / violation)', int((~valid).sum()))
     if not valid.any():
@@ -376,6 +379,8 @@ def check_pass(ctx, spec, Pin, Sin, Pout, Sout, n1, desc, stage='raytrace', j=0)
     s0 = -Pl0d[:, 2] / Sl0d[:, 2]
     X0 = Pl0d + s0[:, None] * Sl0d
     start_outside = ~np.isfinite(sag(X0[:, 0], X0[:, 1]))
+    gx0, gy0 = lib_gradient(spec, X0[:, 0], X0[:, 1])
+    start_normal_nan = ~start_outside & ~(np.isfinite(gx0) & np.isfinite(gy0))   # sag real there, library normal is not
     long_path = np.abs(sroot - s0) >= LONG_PATH
     vertex_hit = r_root <= 1e-12 * max(a, 1.0)
     # oracle normal at the oracle's own intersection (used for TIR/grazing decisions when the library is NaN)
@@ -408,7 +413,10 @@ def check_pass(ctx, spec, Pin, Sin, Pout, Sout, n1, desc, stage='raytrace', j=0)
                    'a ray through the local origin of the surface (e.g. the ray along the axis of symmetry) comes back NaN'),
                   ('start-outside', lost & ~vertex_hit & start_outside, 'C19/newton-nonconvergence/start-outside-sag-domain',
                    'ray hits the surface inside the aperture but crosses the local vertex plane where the sag is not real: NaN'),
-                  ('long-path', lost & ~vertex_hit & ~start_outside & long_path, 'C19/newton-nonconvergence/long-path',
+                  ('start-normal-nan', lost & ~vertex_hit & start_normal_nan, f'C19/newton-nonconvergence/normal-nan-at-start/{fam}',
+                   'ray hits the surface inside the aperture; at its vertex-plane crossing (where the Newton iteration starts) the '
+                   'sag is real but the library normal is NaN, so the ray is lost'),
+                  ('long-path', lost & ~vertex_hit & ~start_outside & ~start_normal_nan & long_path, 'C19/newton-nonconvergence/long-path',
                    f'ray hits the surface inside the aperture, >= {LONG_PATH:g} units from the local vertex plane: the Newton '
                    'iteration never meets its absolute 100*eps step tolerance and the ray is marked NaN')]
         rest = lost.copy()
